@@ -72,7 +72,7 @@ def gen(kinds, spec, path, tier):
         # compositions F(G(v))
         for g in facs:
             for f in facs:
-                if tier == "quick" and k not in ("k_inter", "k_planar", "k_bits7") and not (f["name"] == g["name"]):
+                if tier == "quick" and k not in ("k_inter", "k_planar", "k_bits7", "k_virt", "k_deref", "k_xystep") and not (f["name"] == g["name"]):
                     continue
                 gw, gh = dims(g, "v.width()", "v.height()")
                 gw, gh = gw.replace("P", "q"), gh.replace("P", "q")
